@@ -10,3 +10,21 @@ package compiler
 //@   property C01 C05 C18
 //@   case filter: loop-height count
 //@   case map: loop-height i
+
+// encoding helpers (C05): operands are little-endian 16-bit values; a patched forward jump lands exactly
+// at the end of the code emitted so far, a backward jump exactly at `to`.
+//@ func compiler.encode returns r
+//@   property C05
+//@   ensures[len] len(r) == 2
+//@   ensures[le] int(r[0]) + 256*int(r[1]) == int(i)
+
+//@ func compiler.compiler.patchJump
+//@   property C01 C05
+//@   requires c != nil && placeholder >= 1 && placeholder + 2 <= len(c.bytecode)
+//@   ensures[lands-here] (placeholder - 1) + 3 + int(c.bytecode[placeholder]) + 256*int(c.bytecode[placeholder+1]) == len(c.bytecode)
+//@   ensures[len] len(c.bytecode) == old(len(c.bytecode))
+
+//@ func compiler.compiler.calcBackwardJump returns r
+//@   property C01 C05
+//@   requires c != nil && to >= 0 && to <= len(c.bytecode)
+//@   ensures[lands-at-to] len(r) == 2 && len(c.bytecode) + 3 - (int(r[0]) + 256*int(r[1])) == to
